@@ -330,7 +330,7 @@ def check_progress(ctx):
         return R.recv_expr(bb, n).has_field("RetirementQueue", "released_sectors") or R.recv_expr(bb, n).has_field(None, "released_sectors")
     loads = ctx.sites(b, R.call("Atomic::load", "AtomicU64::load", "AtomicUsize::load").filter(on_rel, "released_sectors.load"), inst, exact=2)
     pw = ctx.sites(b, R.call("write_buffer::process_write_batch"), inst, exact=1)
-    fp = ctx.sites(b, R.call("write_buffer::flush_pending_deletions"), inst, exact=2)
+    fp = ctx.sites(b, R.call_or_thin_helper("write_buffer::flush_pending_deletions"), inst, exact=2)
     if len(loads) != 2:
         return
     snap, cur = sorted(loads)
@@ -576,7 +576,39 @@ def check_cas_loops(ctx):
     ctx.check(n_loops >= 4, inst, "anchor", "-", "compare-exchange retry loops examined (>= 4: clock next / observe, memory admission, extent readers; found %d of %d sites)" % (n_loops, n_sites), None)
 
 
+def check_expired_retry(ctx, inst="C18.expired-retry"):
+    """atomic_increment retires an expired current generation and goes round again. The retry ends only if the retirement is
+    asked for the generation that was just judged expired (the latest table read): retire_expired_if_current removes the entry
+    only when it still holds the record it is given, so handing it another generation (the first one this call observed) makes
+    every iteration find the same expired record, retire nothing and spin - with no lock held, at 100 % CPU, for ever."""
+    b = ctx.fn("FeoxStore::atomic_increment_with_timestamp_and_ttl", inst)
+    if b is None:
+        return
+    sites = ctx.sites(b, R.call("FeoxStore::retire_expired_if_current"), inst, floor=2)
+    judged = set()
+    for n in b.calls():
+        if R._is_atomic_call(n.ev, R.ATOMIC_LOADS):
+            e = R.recv_expr(b, n)
+            for x in e.walk():
+                if x.k == "field" and x.extra[1] == "ttl_expiry" and (x.extra[0] or "").endswith("Record") and x.a:
+                    judged.add(x.a[0].key())
+    rv = [n for n in b.calls() if call_matches(n.ev, "FeoxStore::resolve_value")]
+    for n in rv:
+        judged.add(R.arg_expr(b, n, 2).key())
+    ctx.check(bool(judged), inst, "anchor", b.path, "the generation whose expiry is judged is identified", None)
+    for s_ in sites:
+        e = R.arg_expr(b, b.nodes[s_], 2)
+        ctx.check(e.key() in judged, inst, "PROVENANCE", b.path, "the generation retired before the retry is the one just judged (latest table read), not an earlier observation",
+                  b.where(s_), {"retired": e.show()[:100]})
+        # and the retry really goes back to a fresh table read
+        reads = [n.id for n in b.calls() if call_matches(n.ev, "HashMap::read") and R.recv_expr(b, n).has_field("FeoxStore", "hash_table")]
+        r, _ = A.reach(b, A.succs(b, s_), blocked_nodes=set(reads))
+        bad = [x for x in sites if x in r and x != s_]
+        ctx.check(not bad, inst, "FOLLOW", b.path, "after a lazy retirement the table is read again before anything is retired again", b.where(s_))
+
+
 def check(ctx):
+    check_expired_retry(ctx)
     check_cas_loops(ctx)
     check_requeue(ctx)
     check_readers(ctx)
